@@ -16,15 +16,15 @@ const prop = "C05"
 
 // descriptor of an inclusive fork/join case.
 type descriptor struct {
-	NB       int    `json:"nb"`             // conditional branches
-	Mask     int    `json:"mask"`           // truth assignment of the branch conditions
-	Def      int    `json:"def"`            // index of the default branch, -1 none
-	Body     []int  `json:"body"`           // per branch: 0 task, 1 two tasks, 2 task then xor(early end | continue), 3 empty (flow straight to the join)
-	EarlyEnd []bool `json:"earlyEnd"`       // per branch of body kind 2: the token takes the end path
-	Order    []int  `json:"order"`          // listing order permutation of the fork's outgoing flows
-	Repeat   int    `json:"repeat"`         // the block repeated sequentially 1..2 times
-	Lang     string `json:"lang"`           // expr|xpath
-	Schedule []int  `json:"schedule"`       // answer order
+	NB       int    `json:"nb"`       // conditional branches
+	Mask     int    `json:"mask"`     // truth assignment of the branch conditions
+	Def      int    `json:"def"`      // index of the default branch, -1 none
+	Body     []int  `json:"body"`     // per branch: 0 task, 1 two tasks, 2 task then xor(early end | continue), 3 empty (flow straight to the join)
+	EarlyEnd []bool `json:"earlyEnd"` // per branch of body kind 2: the token takes the end path
+	Order    []int  `json:"order"`    // listing order permutation of the fork's outgoing flows
+	Repeat   int    `json:"repeat"`   // the block repeated sequentially 1..2 times
+	Lang     string `json:"lang"`     // expr|xpath
+	Schedule []int  `json:"schedule"` // answer order
 	DeclSeed int    `json:"declSeed"`
 }
 
